@@ -696,4 +696,103 @@ def lsp_entries(F):
     return names
 
 
-RULES = [r13, r80, r82, r83, r97, r76, r77, r78]
+
+# ------------------------------------------------------------------ R98 recursion through a name table
+LOOKUP_PASS = ("::clone", "::cloned", "::as_ref", "::unwrap", "::deref", "::borrow", "::as_deref", "::copied", "::unwrap_or_default",
+               "Box::new", "Rc::new")
+SEARCHES = ("find", "any", "position", "contains", "contains_key", "binary_search", "get")
+MARKS = ("alloc::vec::Vec::push", "BTreeSet::insert", "HashSet::insert", "BTreeMap::insert", "HashMap::insert")
+
+
+def _lookup_taint(fn):
+    """locals holding (a copy, clone, reference or payload of) the result of a map lookup by key"""
+    T = {}
+    for b, t in fn.calls():
+        c = callee(t)
+        if c.endswith("::get") and ("BTreeMap" in c or "HashMap" in c):
+            T[t["dest"]["l"]] = b
+    changed = True
+    while changed:
+        changed = False
+        for b, j, pl, rv, m in fn.assigns():
+            if pl["l"] in T:
+                continue
+            src = None
+            if rv["k"] in ("use", "cast"):
+                p = op_place(rv["ops"][0])
+                src = p["l"] if p else None
+            elif rv["k"] in ("ref", "rawptr"):
+                src = rv["place"]["l"]
+            if src in T:
+                T[pl["l"]] = T[src]
+                changed = True
+        for b, t in fn.calls():
+            if t["dest"]["l"] in T or not t["args"]:
+                continue
+            if any(callee(t).endswith(x) for x in LOOKUP_PASS):
+                p = op_place(t["args"][0])
+                if p and p["l"] in T:
+                    T[t["dest"]["l"]] = T[p["l"]]
+                    changed = True
+    return T
+
+
+def r98(F):
+    r = RuleResult("R98", "recursion that follows a name through a table is cut before it descends",
+                   "for every recursive call (caller and callee in one cycle of the call graph, reachable from an entry point) that is "
+                   "handed a value looked up by name in a map: an in-progress mark (push/insert into a collection that the function also "
+                   "searches first) dominates the call, so a cyclic name graph (mutually recursive constraints) cannot recurse forever; "
+                   "recursion on sub-parts of finite values needs no mark and is not examined", floor=1, exhaustive=True)
+    CG = callgraph.get(F)
+    reach = {n for n in CG.reachable_from(entries(F)) if n in F.fns}
+    comps = callgraph.recursive_sccs(CG, reach)
+    r.note("%d recursive cycles among %d reachable functions" % (len(comps), len(reach)))
+    for comp in comps:
+        cs = set(comp)
+        for n in comp:
+            for fnn in F.with_closures(n):
+                fn = F.fns[fnn] if isinstance(fnn, str) else fnn
+                T = None
+                for b, t in fn.calls():
+                    if not (set(CG.targets(t)) & cs):
+                        continue
+                    if T is None:
+                        T = _lookup_taint(fn)
+                    hit = [ai for ai, a in enumerate(t["args"]) if op_place(a) is not None and op_place(a)["l"] in T]
+                    if not hit:
+                        continue
+                    lb = T[op_place(t["args"][hit[0]])["l"]]
+                    marks = [mb for mb, mt in fn.calls() if any(callee(mt).endswith(x) or x in callee(mt) for x in MARKS)
+                             and mb != b and cfg.dominates(fn, mb, b)]
+                    searches = [sb for sb, st in fn.calls() if callee(st).split("::")[-1] in SEARCHES and sb != lb]
+                    ok = any(any(cfg.dominates(fn, sb, mb) for sb in searches) for mb in marks)
+                    short = fn.name.split("::")[-1]
+                    ord_ = sum(1 for i in r.instances if i["key"].startswith("R98:%s->" % short))
+                    r.inst("%s->%s:#%d" % (short, callee(t).split("::")[-1], ord_), fn.where(b), ok,
+                           "the looked-up value (%s) is descended into only after an in-progress mark at %s" % (fn.where(lb), fn.where(marks[0])) if ok else
+                           "%s recurses into a value looked up by name (%s) and records the visit only afterwards (or never): names that refer "
+                           "to each other recurse until the stack overflows" % (short, fn.where(lb)))
+    return r
+
+
+# ------------------------------------------------------------------ R13p printer indentation
+def r13p(F):
+    from .c05 import arm_sentences
+    from .. import printer
+    r = RuleResult("R13p", "printer indentation never goes below the level it started at",
+                   "`curr_indent -= indent_size` is a usize subtraction; by abstract interpretation of every render arm (all node shapes, "
+                   "every layout decision, printer helper methods interpreted in place with their &mut flags) the running balance of "
+                   "`+=`/`-=` on curr_indent never drops below the arm's entry level (this backs the class `balanced` of the R13 table)",
+                   floor=32, exhaustive=True)
+    for enum, fnm in (("Expression", "render_expr"), ("Statement", "render_stmt"), ("Value", "render_value")):
+        for v, (sents, ln, runs, unknown, bound, underflows) in sorted(arm_sentences(F, fnm).items()):
+            ok = not underflows and not unknown
+            r.inst("%s::%s" % (enum, v), "src/ast/printer/mod.rs:%d" % ln, ok,
+                   "balance stays >= 0 on all %d explored paths" % runs if ok else
+                   ("the arm uses constructs the interpreter does not model: %s" % unknown if unknown else
+                    "on the path writing `%s` the `curr_indent -= indent_size` at line %s undoes an indent that was never made: "
+                    "usize underflow (panic in dev builds, a huge indent otherwise)" % (printer.show_syms(underflows[0][1]), underflows[0][0])))
+    return r
+
+
+RULES = [r13, r13p, r80, r82, r83, r97, r76, r77, r78, r98]
